@@ -17,7 +17,7 @@ pub fn def() -> PropDef {
         run_unit,
         replay,
         required_probes: &["Sqrt_ParityAdjust", "Sqrt_LongInput", "Sqrt_Sticky", "Sqrt_Exact", "Wsr_RoundInside", "Wsr_Carry", "Wsr_CarryNewDigit"],
-        rule: "exhaustive small scope: every n in 1..3000 x scales -2..3 x p 1..4 x 7 modes; then seeded non-negative decimals of 1..2000 digits at scales -2000..2000 of both parities, with dedicated families: inputs longer than 2(p+5) digits, perfect squares t^2, perfect squares +-1 unit in a far-away digit (1..120 places down, one in four anywhere down to the 2000-digit limit), roots whose digits after the p-th are 5000..0 (exact tie), 5000..0x, 4999..9x (built by squaring a (p+1..p+40)-digit root and perturbing), roots of all nines (carry into a new digit), 10^k; precision p in 1..150 with weight on 1..5 and 100, all 7 modes; every case through sqrt_with_context on value and reference, sqrt_abs / sqrt_copysign on x and -x, sqrt() for the default context; oracle = correctly rounded root from a verified integer square-root bracket, plus the directed-mode inequalities r^2 >= x / r^2 <= x checked separately. distinct = distinct (x, p, mode); non-trivial = the root is not representable in p digits (rounding decides)",
+        rule: "exhaustive small scope: every n in 1..3000 x scales -2..3 x p 1..4 x 7 modes; then seeded non-negative decimals of 1..2000 digits at scales -2000..2000 of both parities, with dedicated families: inputs longer than 2(p+5) digits, perfect squares t^2, perfect squares +-1 unit in a far-away digit (1..120 places down, one in four anywhere down to the 2000-digit limit, one in four on or beside the 2(p+5)-th digit; one in three written with 1..4 trailing zeros), roots whose digits after the p-th are 5000..0 (exact tie), 5000..0x, 4999..9x (built by squaring a (p+1..p+40)-digit root and perturbing), roots of all nines (carry into a new digit), 10^k; precision p in 1..150 with weight on 1..5 and 100, all 7 modes; every case through sqrt_with_context on value and reference, sqrt_abs / sqrt_copysign on x and -x, sqrt() for the default context; oracle = correctly rounded root from a verified integer square-root bracket, plus the directed-mode inequalities r^2 >= x / r^2 <= x checked separately. distinct = distinct (x, p, mode); non-trivial = the root is not representable in p digits (rounding decides)",
     }
 }
 
@@ -65,10 +65,20 @@ pub fn gen_radicand(r: &mut Rng, k: u32, p: u64, i: u64) -> Dec {
             let pw = num_traits::pow::Pow::pow(&t, k);
             // the perturbing unit sits 1..120 places down, or (1 in 4) anywhere down to the 2000-digit end of the domain
             let room = 1990u64.saturating_sub(gen::ndigits(&pw));
-            let j = if room > 120 && r.chance(1, 4) { 1 + r.below(room) } else { r.below(120) + 1 };
+            let nd = gen::ndigits(&pw);
+            let j = match r.below(4) {
+                0 if room > 120 => 1 + r.below(room),
+                // the unit lands on, or one or two places beside, the k(p+5)-th digit: the length up to which the
+                // implementation keeps digits of a long radicand
+                1 if kk * (p + 5) + 2 > nd + 2 => (kk * (p + 5) + 2 - r.below(5)).saturating_sub(nd).max(1),
+                _ => r.below(120) + 1,
+            };
             let base = pw * pow10(j);
-            let n = if r.bool() { base + 1u8 } else { base - 1u8 };
-            Dec::new(n, ts * k as i64 + j as i64)
+            let mut n = if r.bool() { base + 1u8 } else { base - 1u8 };
+            let mut s = ts * k as i64 + j as i64;
+            // the same value written with 1..4 trailing zeros (the scale keeps or changes its residue mod k)
+            if r.chance(1, 3) { let z = 1 + r.below(4); n = n * pow10(z); s += z as i64; }
+            Dec::new(n, s)
         }
         5 | 6 | 7 => {
             // root with a chosen tail after the p-th digit: q (p digits) then tail, squared/cubed, then maybe perturbed
@@ -95,6 +105,7 @@ pub fn gen_radicand(r: &mut Rng, k: u32, p: u64, i: u64) -> Dec {
                 }
             }
             if n.is_negative() { n = -n; }
+            if r.chance(1, 4) { let z = 1 + r.below(4); n = n * pow10(z); s += z as i64; }
             Dec::new(n, s)
         }
         8 => {
